@@ -152,10 +152,10 @@ def printed_tuples(stdout, tag):
     out = []
     lines = stdout.split('\n')
     i = 0
-    start = '<<"%s"' % tag
+    start = re.compile(r'<<\s*"%s"' % re.escape(tag))
     while i < len(lines):
         ln = lines[i]
-        if ln.startswith(start):
+        if start.match(ln):
             buf = ln
             # balance << >>
             while buf.count('<<') > buf.count('>>') and i + 1 < len(lines):
